@@ -82,6 +82,8 @@ def build(b, T, G, np_, shape):
         else: p['print_block'] = None if (isinstance(pb, str) and pb.startswith('block')) else pb
         p.update(b.record('param3'))
         p['default_incons'] = b.reals(shape.get('nincons', 0), 'e', 20, 14)
+        # absent values inside the list (never the last entry: a trailing None is not data)
+        for i in shape.get('incon_nones', []): p['default_incons'][i] = None
     else:
         # PARAM is always written (the parameter dict is never empty); keep defaults
         pass
